@@ -375,6 +375,11 @@ def check(an: Analysis) -> None:
         if w is not None:
             culprit = next((n for n in reversed(w) if n.kind in ("call", "await", "comp")), w[0])
             ob.fail(saenter, culprit.ast, "a failing __aenter__ leaves the pre-registered metrics scope unfinished (parent scope can never complete)", CFG.show_path(w))
+        men = call_nodes(an, gs, c02.q("context.metrics.MetricsContext.__enter__"))
+        for x in mx:
+            w = gs.search([gs.entry], lambda n, x=x: n is x, skip_node=lambda n: n in men)
+            if w is not None:
+                ob.fail(saenter, x.ast, "the roll-back leaves the metrics context without having entered it: MetricsContext.__exit__ trips its own `token is not None` assertion, the roll-back dies with AssertionError and the task group is left open", CFG.show_path(w))
     else:
         ob.fail(saenter, None, "task group enter not found")
 
